@@ -397,3 +397,12 @@ def r6(ctx):
 
 
 RULES.append(r6)
+
+
+@rule("R7", doc="group membership, on which eq() rests, has no shortcut to `true` and sifts by the convention of the chain (shared with C10.G1)")
+def r7(ctx):
+    from . import c10
+    c10.g1(ctx)
+
+
+RULES.append(r7)
